@@ -739,12 +739,16 @@ var jsHandSources = []string{
 	"{namespace n}\n{template .t}{['a': ['b': [1, [2, [:]]]], 'c': []]}{[]}{[:]}{[1, 'x', null, true, 2.5, G_I]}{/template}\n",
 }
 
+// file names are arbitrary strings (AddTemplateString's label, any path): the header comment names the file
+var handNames = []string{"hand.soy", "dir/ü nter.soy", "a\nalert(1);//.soy", "we\\ird'\"*/.soy", "x\r.soy", "l\u2028s\u2029.soy", "</script>.soy"}
+
 func genC14gen(g *G) {
 	n := g.N(600, 12000)
 	bg := newJsBundleGen(g.R)
 	genErrs := 0
 	for hi, src := range jsHandSources {
-		fs := []srcFile{{"hand.soy", src}}
+		hname := handNames[hi%len(handNames)]
+		fs := []srcFile{{hname, src}}
 		globals := jsGlobalsFull()
 		reg, err := jsCompile(fs, globals)
 		if err != nil {
@@ -760,7 +764,7 @@ func genC14gen(g *G) {
 		}
 		for _, fm := range []string{"es5", "es6"} {
 			for _, mb := range bundles {
-				g.Add(Case{Req: req("jsgen", encSources(fs), wire, hxs("hand.soy"), fm, sxMsgs(mb), sxGlobals(globals), "3"), NT: true, Class: "hand-" + fm, Note: "hand#" + itoa(hi) + " " + fm})
+				g.Add(Case{Req: req("jsgen", encSources(fs), wire, hxs(hname), fm, sxMsgs(mb), sxGlobals(globals), "3"), NT: true, Class: "hand-" + fm, Note: "hand#" + itoa(hi) + " " + fm})
 			}
 		}
 	}
